@@ -60,6 +60,8 @@ def render(items, doctype: str, indent: str = "  "):
             lines.append(f"{pad}<o><![CDATA[{CDATA.replace(']]', ']]]]><![CDATA[')}]]></o>" if False else f"{pad}<o><![CDATA[a < b & c]]></o>")
         elif k == "m":
             lines.append(f"{pad}<!--{COMMENT_OK}-->")
+        elif k == "mx":
+            lines.append(f"{pad}<o>before<!--{COMMENT_OK}-->after</o>")
         elif k == "p":
             lines.append(f"{pad}<?pi some data?>")
         elif k == "added":
@@ -73,7 +75,7 @@ def render(items, doctype: str, indent: str = "  "):
 
 def events(text: str) -> list:
     """Independent parse (expat): element / attribute / character data / comment / PI / doctype events; whitespace-only
-    character data is insignificant; CDATA sections contribute their content as character data."""
+    character data is insignificant, any other character data counts with its white space; CDATA sections contribute their content as character data."""
     out: list = []
     buf: list[str] = []
 
@@ -82,7 +84,7 @@ def events(text: str) -> list:
             s = "".join(buf)
             buf.clear()
             if s.strip():
-                out.append(("text", s.strip()))
+                out.append(("text", s))   # character data that is not only white space counts as it stands
 
     p = xml.parsers.expat.ParserCreate()
     p.ordered_attributes = False
